@@ -26,6 +26,8 @@ TAdd == /\ E.ev = "pb_add"
            ELSE \* the 256th element: the only behaviour allowed is refusal, at the add or at serialisation
                 /\ Judge("C18", E.panic, I("oversize_not_refused"))
                 /\ Judge("C15", E.panic, I("builder_accepts_what_the_package_refuses"))
+                \* if the builder can still be serialised after the refusal, it is the builder as it was before
+                /\ Judge("C18", (E.panic /\ ~E.ser_panic) => E.bytes = PbImage(data, elements), I("refused_element_changed_builder"))
                 /\ UNCHANGED <<data, elements>>
 TPush == E.ev = "pb_push" /\ data' = data \o E.d /\ UNCHANGED elements /\ Obs(data', elements)
 
